@@ -148,7 +148,19 @@ fn weight_vector(rng: &mut Rng, nv: usize, kind: usize) -> Vec<f64> {
         }
         5 => {
             let mut w = dyadic_weights(rng, nv, false);
-            let i = rng.below(nv);
+            // (half of the time the NaN stands where a zero weight would have been valid: the
+            // other components sum to one on their own)
+            let zeros: Vec<usize> = (0..nv).filter(|i| w[*i] == 0.0).collect();
+            let i = if !zeros.is_empty() {
+                *rng.pick(&zeros)
+            } else if nv >= 2 && rng.chance(0.5) {
+                let i = rng.below(nv);
+                let j = (i + 1) % nv;
+                w[j] += w[i];
+                i
+            } else {
+                rng.below(nv)
+            };
             w[i] = f64::NAN;
             w
         }
@@ -524,6 +536,36 @@ pub fn run(ctx: &mut Ctx) {
         env.remove(&pa);
         env.remove(&pb);
         ctx.nontrivial(mix(&[5, idx as u64]));
+    });
+
+    // ---- voice files that differ in the GV flag of one stream only (the GV data and its
+    // positions are still in the file of the voice that switches it off)
+    ctx.run_cases("file-gv-flag", 4, true, |ctx, _rng, idx| {
+        let name = ["LF0", "MCP"][idx % 2];
+        let old = format!("USE_GV[{}]:1\n", name);
+        let Some(at) = env.bundled_bytes.windows(old.len()).position(|w| w == old.as_bytes()) else {
+            ctx.inconclusive("bundled voice header has no USE_GV line of the expected form");
+            return;
+        };
+        let mut bytes = env.bundled_bytes.clone();
+        bytes[at + old.len() - 2] = b'0';
+        let pb = env.voice_file(&bytes);
+        let pa = env.bundled_path.clone();
+        if Engine::load(&[&pb]).is_ok() {
+            let lists: [Vec<&std::path::PathBuf>; 3] = [vec![&pa, &pb], vec![&pb, &pa], vec![&pa, &pa, &pb]];
+            let l = &lists[(idx / 2) % 3];
+            for l in [l, &lists[(idx / 2 + 1) % 3]] {
+                ctx.count("voice_file_lists_checked", 1.0);
+                if Engine::load(l).is_ok() {
+                    ctx.violation("incompatible-voices-combined", J::obj().set("field", format!("USE_GV[{}] differs between the voice files", name)).set("voices", l.len()));
+                    break;
+                }
+            }
+        } else {
+            ctx.count("gv_flag_variant_does_not_load_alone", 1.0);
+        }
+        env.remove(&pb);
+        ctx.nontrivial(mix(&[6, idx as u64]));
     });
 
     // ---- random histories on 1..4 voice engines
